@@ -140,6 +140,15 @@ class MetaHook(type):
         raise AttributeError(name)
 
 
+class ClassAttrHook(type):
+    """metaclass whose attribute lookup is a scheduling point for the names the namedtuple heuristic reads"""
+
+    def __getattribute__(cls, name):
+        if name in ('_fields', '_make', '_asdict'):
+            S.point('class_attr_' + name)
+        return super().__getattribute__(name)
+
+
 def build_ops(name):
     """-> (ops dict, checker(results, solo) -> list of failures) for an operation tuple"""
     import pickle
@@ -298,6 +307,25 @@ def build_ops(name):
                     fails.append(('shared_iter/raises', f'{k}: {r}'))
             return fails, bool(outs['A'] and outs['B'])
         return {'A': consumer('A'), 'B': consumer('B')}, check, None
+
+    if name == 'first_classification_of_a_namedtuple_class':
+        # a namedtuple class nobody has classified yet (its attribute lookups are scheduling points): every thread that
+        # flattens an instance during that first classification must still see a namedtuple node, not a leaf
+        Base = namedtuple('Point17', 'x y')
+        Hooked = ClassAttrHook('Hooked17', (Base,), {})
+
+        def flat(k):
+            def f():
+                return list(optree.tree_leaves((Hooked(1, 2), [3]))), optree.tree_structure(Hooked(4, 5)).kind == optree.PyTreeKind.NAMEDTUPLE
+            return f
+
+        def check(results, solo):
+            fails = []
+            for k, r in results.items():
+                if r != ('ok', ([1, 2, 3], True)):
+                    fails.append(('first_classification/result_differs', f'{k}: {r!r} (alone: ([1, 2, 3], True))'))
+            return fails, True
+        return {'A': flat('A'), 'B': flat('B'), 'C': flat('C')}, check, None
 
     if name == 'same_registration':
         class Dup:
@@ -471,7 +499,7 @@ def _solo(f):
 TUPLES = ['flatten|map', 'flatten|reg_nt', 'map|reg_nt', 'flatten2|reg_nt', 'inspect|reg_nt', 'unflatten|reg_meta',
           'flatten2|reg_meta', 'reg_nt|reg_nt', 'reg_nt|reg_meta', 'eq|hash', 'eq|eq', 'hash|hash', 'repr|repr', 'repr|pickle',
           'hash|repr', 'iter|with_path', 'unflatten|flatten', 'broadcast|inspect', 'flatten|map|reg_plain', 'iter|unflatten|reg_nt',
-          'eq|hash|repr', 'selfrepr|selfrepr', 'selfhash|selfhash', 'selfrepr|selfhash|selfrepr', 'shared_iter', 'same_registration', 'registry_change_of_flattened_type',
+          'eq|hash|repr', 'first_classification_of_a_namedtuple_class', 'selfrepr|selfrepr', 'selfhash|selfhash', 'selfrepr|selfhash|selfrepr', 'shared_iter', 'same_registration', 'registry_change_of_flattened_type',
           'register|unregister_same_type']
 
 
